@@ -6,15 +6,57 @@ ENV = "GOFLAGS=-mod=mod GOPROXY=off GOSUMDB=off GOTOOLCHAIN=local GOWORK=off"
 
 # id -> (clause decided, level_note (assumed / trusted / NOT decided), technique, design_ref)
 CLAIMED = {
+    "C05": (
+        "Structural clauses decided for EVERY program the compiler can emit from a tree of the module's node kinds (structural induction over the tree, one template per path through each kind's code-generation scheme): opcode table = VM handlers = disassembler cases, with agreeing operand width and jump direction; every emitted instruction carries the operand kind and width its handler decodes; every forward placeholder is patched exactly once, every backward jump targets a label captured earlier; writer and reader offset arithmetic agree (affine evaluation of emit, patchJump, calcBackwardJump, VM.arg, the fetch step and the jump handlers: landing = patch point resp. label) and byte order agrees between encode, VM.arg and the disassembler; no instruction pops below its template's entry depth, all paths agree on depth at joins, each template leaves exactly its kind's effect; Begin/End scopes balanced on all paths, scope variables stored before read; conversions to the 16-bit operand are dominated by a range check; makeConstant returns the index of the element it appended or found. This is the whole well-formedness/balance statement except path feasibility and operand values.",
+        "Trusted: go/types; the template extractor (path enumeration of the scheme methods with closure inlining) and the instruction-signature extractor, both of which fail closed (an unrecognised construct is an undecided obligation = failure). Assumed: trees contain only the module's node kinds; all template paths are taken as feasible (over-approximation). Not decided: that an operand designates the intended constant.",
+        "bytecode-verifier-style typestate analysis of extracted emitter templates against extracted VM instruction signatures; affine evaluation of offset arithmetic; table cross-checks",
+        "DESIGN.md §4 C05, §3 E2/E3"),
+    "C06": (
+        "The accounting discipline, for every dispatch handler and every path through it: each freshly created collection that reaches the evaluation stack is accompanied unconditionally by a counter update by exactly its length and by a comparison of the counter including that amount with the limit using >=, panicking on failure; the amount is provably non-negative; the counter is written only by these updates and the prologue reset; the limit comes from the package variable in the prologue; compile-time allocations in the optimizer are capped by a constant. These are necessary conditions of the property: breaking any of them yields a concrete program whose run escapes or is wrongly refused by the budget.",
+        "Trusted: go/types, affine evaluation of the handlers' straight-line top level. Assumed: programs come from Compile (the non-negativity of OpArray/OpMap's popped count rests on the C05 verifier's origin analysis). Not decided: that the count equals a reference evaluator's notion of elements an evaluation must create; allocations inside environment functions.",
+        "per-handler allocation → accounting → limit-check analysis with sign obligations (AST + go/types + affine forms)",
+        "DESIGN.md §4 C06"),
+    "C07": (
+        "The re-initialisation discipline: the set of VM fields that any *VM method assigns is computed, and each is assigned on every path through (*VM).Run before the dispatch loop (or the path crosses the false edge of `field != nil`) with a value that mentions no VM state except a zero-length reslice of the field itself. With C08's no-shared-write rules a run is then a function of (program, environment, budget) only — the complete argument for the property under the stated assumptions.",
+        "Trusted: go/types; the structured must-assign analysis of Run's prologue (if/else and one level of *VM method inlining). Assumed: environment functions keep no state. Not decided: state in the debug channels of vm.Debug() (Run closes them, such VMs are single-use).",
+        "computed mutable-field set + must-assign analysis of the Run prologue + history-independence of the assigned values",
+        "DESIGN.md §4 C07"),
+    "C08": (
+        "Freedom from unsynchronised writes to shared state as an effect property over the SSA form of every library function: no function other than a package initialiser writes (store, map update, append, copy, delete, send, close, sort, reflect setter) an object rooted at a package-level variable; every write effect of every function reachable from vm.Run / (*VM).Run is rooted at a fresh object or at per-run receiver state, never at a parameter (program, env), never behind a field borrowed from the program, never behind a dynamic value taken from the stack; fields of vm.Program are stored only into a Program allocated in the same function; foreign pointer-receiver methods called on shared objects are in a reasoned allow-list.",
+        "Trusted: go/ssa, the VTA call graph for run-side reachability (closures of reachable functions and Error/String methods added), the root classification (fails closed: an unclassified target is an undecided obligation). Assumed: a vm.VM value is used by one goroutine at a time. Not decided: races inside environment functions, user visitors or reflect-invoked methods; result equality under concurrency (follows from C07's argument).",
+        "SSA effect analysis with address-root classification and call-result summaries; who-writes over the module",
+        "DESIGN.md §4 C08, §3 E4"),
+    "C09": (
+        "Absence of nondeterminism sources and of input writes over every library function in the import closure of the root package: no go statement, select, time, math/rand, crypto/rand or process-environment access; every iteration over a map's entries on the compile side has an order-insensitive body (stores keyed by the entry's key, body-local definitions, error returns) and none exists in functions reachable from Run; no reflect.Value setter anywhere in the library; run-side writes touch only fresh or per-run objects (shared with C08).",
+        "Trusted: go/ssa, go/types, the order-insensitivity rules for loop bodies (a statement form they do not know is a violation). Not decided: byte-for-byte equality itself; environment functions and user visitors; which of several configuration errors is reported first.",
+        "source census over SSA + syntactic order-insensitivity analysis of every map loop",
+        "DESIGN.md §4 C09, §3 E4"),
     "C10": (
         "Structural clause decided for ALL finite trees of the module's node kinds (induction over the tree): the walker has a clause per node kind; every clause passes the address of every child slot to the recursion exactly once per path, in source order; Enter precedes the dispatch which re-reads *node; Exit once after the children; ast.Patch carries type+location and stores through the pointer; every pipeline stage walks the one tree that is compiled; library rewrites are linear (no operand reused twice). This is the whole traversal contract except the behaviour of user visitors.",
         "Trusted: go/types, the path enumerator over the walker's syntax. Assumed: trees contain only the module's node kinds. Not decided: what user visitors do. One known finding (F12: inRange shares one operand node).",
         "exhaustiveness + per-path slot-consumption analysis of the walker's type switch (AST paths, go/types), who-passes-which-tree dataflow in expr.Compile, rewrite-site linearity",
         "DESIGN.md §4 C10, §3 E1/E6"),
+    "C14": (
+        "Exhaustive table check (finite instance space, exhaustive: true): one total rank of the twelve numeric kinds is shared by the checker's weight function, the generator's kind list and the direction of every conversion in the generated helpers; every (kind, kind) case of every helper converts exactly the lower-ranked operand to the higher-ranked kind, operands in order; each case applies the helper's operator, which is the DSL operator whose compilation reaches that helper (template → opcode → handler → helper); the static type of each arithmetic case is the kind the checker predicts by weight, comparisons yield bool; all pairs present (modulo: integers only); negate/toInt/toInt64/toFloat64 cover all kinds in the plain Go form; generated file = generator table. Each case is a one-line Go expression whose meaning is Go's, so this decides the property up to Go's semantics of conversions and operators.",
+        "Trusted: go/types and the Go specification. Not decided: the position of the platform-sized uint/int inside their groups (taken from the repository's two tables, which must agree); integer division by zero is Go's panic, contained by Run's recover (C04, not claimed here).",
+        "exhaustive cross-check of the generated type-switch table against the checker's weight function and the generator (AST + go/types)",
+        "DESIGN.md §4 C14, §3 E7"),
 }
 
-# properties not (yet) claimed: id -> reason
+# properties not claimed: id -> reason
+_NOT_BUILT = "DESIGN.md §4 names the structural clause static analysis could decide, but the checker for it was not built in the time available; nothing is claimed. The behavioural statement itself quantifies over run-time values (results of evaluation for every input and environment) and no sound static argument in reach bounds those"
 NOT_APPLICABLE = {
+    "C01": "conformance of evaluated results to the language definition for every expression and environment value is a statement about run-time values; the structural clauses of DESIGN.md §4 C01 (dispatcher exhaustiveness, operand order of templates, short-circuit shape) were not built. " + _NOT_BUILT,
+    "C02": "observational equivalence of optimized and unoptimized programs quantifies over all environment values; the guard analysis of the rewrite sites (DESIGN.md §4 C02) was not built, and its planned fixes were therefore not applied. " + _NOT_BUILT,
+    "C03": "type soundness over all environment values of a type needs an abstract interpretation of checker and VM over reflect types that is out of reach; the agreement rules of DESIGN.md §4 C03 were not built. " + _NOT_BUILT,
+    "C04": "absence of panics and of non-termination for every input depends on value-dependent panics (bounds, nil, reflect argument ranges) and on termination, which no sound static argument in reach bounds; the containment census of DESIGN.md §3 E5 (guard frames, K1–K4) was not built, so not even the structural clause is claimed",
+    "C11": "round-trip equality of printing and parsing for every tree, and agreement with a reference grammar for every token sequence, are statements about parser results; the binding-power table cross-check of DESIGN.md §4 C11 was not built. " + _NOT_BUILT,
+    "C12": "exactness of lexed string and number values for every literal is a statement about run-time values of the scanner; the classification-order rules of DESIGN.md §4 C12 were not built. " + _NOT_BUILT,
+    "C13": "that the reported position is that of the offending occurrence depends on which node fails at run time; the location-propagation rules of DESIGN.md §4 C13 were not built. " + _NOT_BUILT,
+    "C15": "equality of results between typed and untyped compilation for every environment value is a run-time equivalence; the instruction-selection guard rules of DESIGN.md §4 C15 were not built. " + _NOT_BUILT,
+    "C16": "agreement of the checker's name table with reflection-based lookup for every environment type quantifies over all Go types; the member-class agreement rules of DESIGN.md §4 C16 were not built. " + _NOT_BUILT,
+    "C17": "equivalence of an overloaded operator occurrence with the function call for every operand value is behavioural; the patcher/checker agreement rules of DESIGN.md §4 C17 were not built (the traversal part it relies on is decided under C10). " + _NOT_BUILT,
+    "C18": "the builtin identities quantify over all arrays and predicates (run-time values); the loop-skeleton clause is partly covered by C05's template verification (scopes, counters, stack balance), but the identities themselves are not decided and nothing is claimed. " + _NOT_BUILT,
 }
 
 def main():
@@ -41,7 +83,7 @@ def main():
         pid = p["id"]
         if pid in CLAIMED:
             continue
-        na.append({"property_id": pid, "reason": NOT_APPLICABLE.get(pid, "no static check is registered for this property yet (see DESIGN.md §4 for the clause that static analysis can decide); nothing is claimed")})
+        na.append({"property_id": pid, "reason": NOT_APPLICABLE[pid]})
     fixes = subprocess.run(["git", "-C", "/repo", "log", "--format=%h %s", "--grep=^fix:"], capture_output=True, text=True).stdout.strip().splitlines()
     m = {
         "version": 1,
